@@ -233,7 +233,17 @@ void t_timer_manager(Src &s, Case &c)
         {
             if (w->ref[id].interval <= 0)
                 break;
-            c.log("plan(t%d) ", id);
+            if ((k + id) % 2)
+            {
+                // the two-step restart: a new start time through the timer's own setter, then plan(t) — the queue position
+                // and the deadline must follow the new start (the new start is a function of the position in the history)
+                int64_t ns = now + K * (int64_t)(((k * 7) % 5 - 2) * 3);
+                c.log("t%d.set_start(%lld)+plan(t%d) ", id, (long long)ns, id);
+                w->tim[id]->set_start(ns);
+                w->ref[id].start = ns;
+            }
+            else
+                c.log("plan(t%d) ", id);
             w->mgr.plan(*w->tim[id]);
             w->ref[id].planned = true;
             break;
